@@ -166,7 +166,19 @@ def registry_worker(blocks):
         uid = f'{next(_counter)}_{random.getrandbits(40):x}'
         real = {n: f'VF{uid}_{n}'.upper() for n in ('F', 'G')}
         evs = {}
-        model = L.ModelCompiler().read_and_parse_dict({'Sheet1!A1': 1})
+        # every formula the history will evaluate is in the model from the start (compiling does not need the function)
+        texts = {}
+        cells = {'Sheet1!A1': 1}
+        for i, h in enumerate(hist):
+            if h['op'] == 'call':
+                name = real[h['f']]
+                inc = 1 if h['f'] == 'F' else 10
+                ver = h['ver']          # the version current when the evaluator was created
+                texts[i] = [(f'Sheet1!Q{i + 1}', f'={name.lower()}("1")', 1 + inc + 100 * ver),
+                            (f'Sheet1!R{i + 1}', f'=_xlfn.{name}(TRUE)+{name.capitalize()}(A1)', 2 + 2 * (inc + 100 * ver))]
+                for addr, text, _ in texts[i]:
+                    cells[addr] = text
+        model = L.ModelCompiler().read_and_parse_dict(cells)
         for i, h in enumerate(hist):
             if h['op'] == 'register':
                 name = real[h['f']]
@@ -178,19 +190,14 @@ def registry_worker(blocks):
                     def fn(number: L.ft.XlNumber) -> L.ft.XlNumber:
                         return number + inc
                     return fn
-                make(inc)
+                make(inc + 100 * h['ver'])          # registering a name again replaces the function
             elif h['op'] == 'new':
                 evs[h['e']] = L.Evaluator(model)
             else:
                 ev = evs[h['e']]
-                name = real[h['f']]
-                inc = 1 if h['f'] == 'F' else 10
                 # lower-case name, numeric text argument, and the _xlfn. prefix: the same coercion rules as built-ins
-                for text, want in ((f'={name.lower()}("1")', 1 + inc), (f'=_xlfn.{name}(TRUE)+{name.capitalize()}(A1)', 2 + 2 * inc)):
-                    addr = f'Sheet1!Q{i + 1}'
+                for addr, text, want in texts[i]:
                     try:
-                        model.cells[addr] = L.xltypes.XLCell(addr, None, formula=L.xltypes.XLFormula(text, 'Sheet1'))
-                        model.cells[addr].formula.ast = L.parser.FormulaParser().parse(text, {})
                         obs = xl.to_abs(ev.evaluate(addr))
                     except BaseException as e:      # noqa
                         if isinstance(e, (KeyboardInterrupt, SystemExit)):
